@@ -497,7 +497,7 @@ class C04(PropBase):
         self.chain_diff = []
         cases = []
         dist = {"coq_scan_layouts": 0, "python_chains": {}, "mixed": 0}
-        n_a = 1000 if tier == "quick" else 5000
+        n_a = 800 if tier == "quick" else 5000
         cases += self.coq_layouts(rng, n_a)
         dist["coq_scan_layouts"] = n_a
         n_m = 500 if tier == "quick" else 2500
